@@ -10,6 +10,20 @@ fn main() {
             println!("patronus: {}", if r.is_some() { "accepted" } else { "rejected" });
             println!("reference: {:?}", vharness::refsem::btor2_ref::B2::load(&text).map(|_| "accepted"));
         }
+        Some("smt") => {
+            // probe smt '<term>' name:width ... (arrays as name:iw:dw)
+            let mut ctx = Context::default();
+            let mut st: rustc_hash::FxHashMap<String, patronus::expr::ExprRef> = Default::default();
+            for d in &args[3..] {
+                let p: Vec<&str> = d.split(':').collect();
+                let e = if p.len() == 2 { ctx.bv_symbol(p[0], p[1].parse().unwrap()) } else { ctx.array_symbol(p[0], p[1].parse().unwrap(), p[2].parse().unwrap()) };
+                st.insert(p[0].to_string(), e);
+            }
+            match patronus::smt::parse_expr(&mut ctx, &st, args[2].as_bytes()) {
+                Ok(e) => println!("ok: {}", vharness::refsem::expr_eval::render(&ctx, e)),
+                Err(e) => println!("error: {e}"),
+            }
+        }
         Some("selftest") => selftest(args.get(2).and_then(|s| s.parse().ok()).unwrap_or(2000)),
         _ => eprintln!("usage: probe btor2 <file> | probe selftest [terms per operator]"),
     }
